@@ -169,6 +169,13 @@ MUTANTS = {
         ('vod-mod', 'dashlive/mpeg/dash/representation.py', '            mod_segment = 1 + segment_num - self.start_number\n', '            mod_segment = segment_num - self.start_number\n'),
     ],
     'C02': [
+        ('gms-tfdt-assign', 'dashlive/server/requesthandler/media_requests.py', "        tfdt.base_media_decode_time += origin_time\n", "        tfdt.base_media_decode_time = origin_time\n"),
+        ('gms-seq-mod', 'dashlive/server/requesthandler/media_requests.py', "        moof.mfhd.sequence_number = seg_num\n", "        moof.mfhd.sequence_number = mod_segment\n"),
+        ('gms-unpack-swap', 'dashlive/server/requesthandler/media_requests.py', "            mod_segment, origin_time, sn = self.calculate_media_segment_index(", "            origin_time, mod_segment, sn = self.calculate_media_segment_index("),
+        ('gms-keep-sidx', 'dashlive/server/requesthandler/media_requests.py', "            del atom.sidx\n", "            pass\n"),
+        ('gms-load-prev', 'dashlive/server/requesthandler/media_requests.py', "            media_file, mod_segment, options,\n", "            media_file, mod_segment - 1, options,\n"),
+        ('gms-ignore-sn', 'dashlive/server/requesthandler/media_requests.py', "            assert sn is not None\n            seg_num = sn\n", "            assert sn is not None\n"),
+        ('gms-404-as-500', 'dashlive/server/requesthandler/media_requests.py', "            logging.warning('ValueError: %s', err)\n            return flask.make_response('Not Found', 404)", "            logging.warning('ValueError: %s', err)\n            raise"),
         ('tl-no-drift', 'dashlive/mpeg/dash/representation.py', '            if mod_segment == self.num_media_segments:\n                duration += drift\n', ''),
         ('tl-drift-sign', 'dashlive/mpeg/dash/representation.py', '            drift = ref_duration_tc - self.mediaDuration\n', '            drift = self.mediaDuration - ref_duration_tc\n'),
         ('tl-wrap', 'dashlive/mpeg/dash/representation.py', '            mod_segment += 1\n            if mod_segment > self.num_media_segments:\n                mod_segment = 1\n        output_s_node', '            mod_segment += 1\n            if mod_segment >= self.num_media_segments:\n                mod_segment = 1\n        output_s_node'),
